@@ -45,6 +45,10 @@ partial def parseProg (j : Json) : Except String Prog := do
     if a.size != 2 then throw "catr arity"
     return Prog.catRange (← a[0]!.getNat?) (← a[1]!.getNat?)
   if let .ok v := j.getObjVal? "touch" then return Prog.touch (← parseProg v)
+  if let .ok v := j.getObjVal? "seq" then
+    let a ← v.getArr?
+    if a.size != 2 then throw "seq arity"
+    return Prog.seq (← parseProg a[0]!) (← parseProg a[1]!)
   throw "bad prog"
 
 def build (fmt : String) (raw : Bytes) : Option Ext :=
